@@ -495,12 +495,12 @@ def loop_sites(repo: Repo) -> List[Dict[str, Any]]:
     enc_key = ("truthy", V("is_encode"))
     try:
         L = py_runtime(repo)
-        out.append({"lang": "py", "file": BP, "fname": "process_base_type", "fn": L.func("process_base_type"), "flow": L.flow(None, primitives=("encode_single_byte", "decode_single_byte"), no_havoc=("encode_single_byte", "decode_single_byte"), names={"ctx.i": "i", "ctx.s": "s", "ctx.is_encode": "is_encode"}), "enc": "encode_single_byte", "dec": "decode_single_byte", "pos": (None, 3, 4), "enc_key": enc_key})
+        out.append({"lang": "py", "file": BP, "fname": "process_base_type", "fn": L.func("process_base_type"), "flow": L.flow(None, primitives=("encode_single_byte", "decode_single_byte"), no_havoc=("encode_single_byte", "decode_single_byte"), names={"ctx.i": "i", "ctx.s": "s", "ctx.is_encode": "is_encode"}, typed={"ctx": L.methods.get("ProcessContext", {})}, inline_props=True), "enc": "encode_single_byte", "dec": "decode_single_byte", "pos": (None, 3, 4), "enc_key": enc_key})
     except Inconclusive as e:
         out.append({"lang": "py", "error": str(e)})
     try:
         G = go_runtime(repo)
-        out.append({"lang": "go", "file": GO_RT, "fname": "processBaseType", "fn": G.func("processBaseType"), "flow": G.flow(None, primitives=("encodeSingleByte", "decodeSingleByte"), no_havoc=("encodeSingleByte", "decodeSingleByte"), names={"ctx.i": "i", "ctx.s": "s", "ctx.isEncode": "is_encode"}), "enc": "encodeSingleByte", "dec": "decodeSingleByte", "pos": (None, 3, 4), "enc_key": enc_key})
+        out.append({"lang": "go", "file": GO_RT, "fname": "processBaseType", "fn": G.func("processBaseType"), "flow": G.flow(None, primitives=("encodeSingleByte", "decodeSingleByte"), no_havoc=("encodeSingleByte", "decodeSingleByte"), names={"ctx.i": "i", "ctx.s": "s", "ctx.isEncode": "is_encode"}, typed={"ctx": G.methods.get("ProcessContext", {})}, inline_props=True), "enc": "encodeSingleByte", "dec": "decodeSingleByte", "pos": (None, 3, 4), "enc_key": enc_key})
     except Inconclusive as e:
         out.append({"lang": "go", "error": str(e)})
     try:
@@ -521,22 +521,70 @@ def loop_sites(repo: Repo) -> List[Dict[str, Any]]:
     return out
 
 
+def chunk_effects(L: Any, fname: str, hooks: Dict[str, Any], getter: str, setter: str) -> List[Effect]:
+    """Effects of a single-chunk coder from the path engine, in the vocabulary check_chunk reads:
+    store s [index, value] / call <setter> [lshift, value] / attr i (cursor writes).  Methods and
+    properties of the context object are inlined, the pure shift / mask helpers get their normal
+    forms from `hooks`."""
+    from .fold import replace_atoms
+    from .normal import call as _call
+    from .pyflow import single_atom as _sa
+
+    fn = L.func(fname)
+    ps = [a_.arg for a_ in fn.args.args]
+    if len(ps) != 5:
+        raise Inconclusive(f"{fname}: parameter list is {ps}")
+    ctxn = ps[0]
+    typed = {ctxn: L.methods.get("ProcessContext", {})}
+    names = {f"{ctxn}.i": "i", f"{ctxn}.s": "s"}
+    flow = L.flow(None, typed=typed, names=names, inline_props=True, value_hooks=hooks, primitives=(getter, setter), havoc_on=())
+    paths = [p_ for p_ in flow.run(fn, {ps[0]: V(ctxn), ps[1]: V(ps[1]), ps[2]: V(ps[2]), ps[3]: V("j"), ps[4]: V("c")}) if p_.done != "raise"]
+    if len(paths) != 1:
+        raise Inconclusive(f"{fname}: {len(paths)} paths (a single straight-line chunk coder is expected)")
+
+    def canon(a: Tuple[Any, ...]) -> Optional[Poly]:
+        # accessor.bp_get_byte(di, rshift) -> bp_get_byte(rshift)
+        if a[0] == "mcall" and a[1] == getter and len(a[2]) >= 2:
+            return _call(getter, replace_atoms(a[2][-1], canon))
+        return None
+
+    out: List[Effect] = []
+    for e in paths[0].effects:
+        if e.kind == "store" and e.name in ("s", f"{ctxn}.s"):
+            out.append(Effect("store", "s", [replace_atoms(x, canon) for x in e.args], e.op, [], e.node))
+        elif e.kind == "call" and e.name == setter:
+            out.append(Effect("call", setter, [replace_atoms(x, canon) for x in e.args[-2:]], "", [], e.node))
+        elif e.kind == "setattr" and e.name == "i":
+            out.append(Effect("attr", "i", [replace_atoms(x, canon) for x in e.args], e.op, [], e.node))
+        elif e.kind == "loop":
+            out.append(Effect("compound", "loop", [], "", [], e.node))
+    return out
+
+
 @rule("D1", "single-chunk encode/decode of every implementation equals the specification normal form; both cursors advance by the chunk")
 def d1(repo: Repo) -> RuleResult:
     res = RuleResult("D1", floor=9)
     # ---------------- Python runtime
     m, bp, funcs, lw = _py_runtime(repo)
-    for direction, fname in (("encode", "encode_single_byte"), ("decode", "decode_single_byte")):
-        fn = funcs.get(fname)
-        if fn is None:
-            res.unsure(f"D1: bp.py:{fname} vanished")
-            continue
-        ps = [a.arg for a in fn.args.args]
-        if len(ps) == 5:
-            lw.names[ps[3]], lw.names[ps[4]] = "j", "c"
-        eff, _ = lw.summarize(fn)
-        check_chunk(res, "py", BP, direction, fname, fn.lineno, eff, "bp_get_byte", "bp_set_byte")
-        _no_cursor_move(res, "py", BP, fname, fn.lineno, eff)
+    from .flows import go_runtime as _gort, py_runtime as _pyrt
+
+    try:
+        PL = _pyrt(repo)
+        hooks_py = {k_: (lambda args, k_=k_: lw.inline(funcs[k_], list(args), 0)) for k_ in ("smart_shift", "get_mask") if k_ in funcs}
+        for direction, fname in (("encode", "encode_single_byte"), ("decode", "decode_single_byte")):
+            if not PL.has(fname):
+                res.unsure(f"D1: bp.py:{fname} vanished")
+                continue
+            try:
+                eff = chunk_effects(PL, fname, hooks_py, "bp_get_byte", "bp_set_byte")
+            except Inconclusive as e:
+                res.unsure(f"D1: py:{fname}: {e}")
+                continue
+            fn = PL.func(fname)
+            check_chunk(res, "py", BP, direction, fname, fn.lineno, eff, "bp_get_byte", "bp_set_byte")
+            _no_cursor_move(res, "py", BP, fname, fn.lineno, eff)
+    except Inconclusive as e:
+        res.unsure(f"D1: py runtime: {e}")
     sites = {x["lang"]: x for x in loop_sites(repo)}
     for lang in ("py", "go", "planner"):
         st_ = sites.get(lang)
@@ -565,12 +613,15 @@ def d1(repo: Repo) -> RuleResult:
     try:
         g = get_go(repo)
         glw = GoLower(g.funcs, names={"ctx.i": "i", "ctx.s": "s", "nbits": "n"})
+        GL = _gort(repo)
+        hooks_go = {k_: (lambda args, k_=k_: glw.inline(g.funcs[k_], list(args), 0)) for k_ in ("smartShift", "getMask") if k_ in g.funcs}
         for direction, fname in (("encode", "encodeSingleByte"), ("decode", "decodeSingleByte")):
             fn = g.func(fname)
-            gps = [p_.name for p_ in fn.params]
-            if len(gps) == 5:
-                glw.names[gps[3]], glw.names[gps[4]] = "j", "c"
-            eff, _ = glw.summarize(fn)
+            try:
+                eff = chunk_effects(GL, fname, hooks_go, "BpGetByte", "BpSetByte")
+            except Inconclusive as e:
+                res.unsure(f"D1: go:{fname}: {e}")
+                continue
             check_chunk(res, "go", GO_RT, direction, fname, fn.line, eff, "BpGetByte", "BpSetByte")
             _no_cursor_move(res, "go", GO_RT, fname, fn.line, eff)
         res.note("go: " + "; ".join(sorted(set(glw.notes))))
